@@ -13,9 +13,10 @@
 EXTENDS Naturals, Sequences, FiniteSets, TLC, Json
 
 Kinds == {"file", "dir", "symdir", "symfile", "magic"}     \* ordinary procfs symlinks by the type of their target
-Decos == {"", "/", "/.", "/..", "/nx-child", "./", "/..NUL"}    \* "/..NUL": a ".." component followed by a NUL byte (Rust API only)
+Decos == {"", "/", "/.", "/..", "/nx-child", "./", "/..NUL", "/./../.."}   \* "/./../..": two ".." after the entry and a "." -- climbs above the base    \* "/..NUL": a ".." component followed by a NUL byte (Rust API only)
 Ops   == {"open_rdonly", "open_path", "open_dir", "open_follow_path", "open_follow_dir", "readlink", "open_creat", "open_follow_creat", "open_tmpfile",
-          "open_follow_nf_path", "open_follow_nf_rdonly", "open_excl", "open_follow_excl", "open_follow_creat_excl"}     \* open_follow called WITH O_NOFOLLOW: the caller refused the trailing link, so it behaves like open
+          "open_follow_nf_path", "open_follow_nf_rdonly", "open_excl", "open_follow_excl", "open_follow_creat_excl",
+          "open_follow_tmpbit"}      \* the bare __O_TMPFILE bit: with a trailing slash (which means O_DIRECTORY) it IS O_TMPFILE     \* open_follow called WITH O_NOFOLLOW: the caller refused the trailing link, so it behaves like open
 \* an explicit O_NOFOLLOW makes open_follow the same operation as open
 Canon(o) == IF o = "open_follow_nf_path" THEN "open_path" ELSE IF o = "open_follow_nf_rdonly" THEN "open_rdonly" ELSE o
 
@@ -23,7 +24,11 @@ Canon(o) == IF o = "open_follow_nf_path" THEN "open_path" ELSE IF o = "open_foll
 Final(d) == d \in {"", "./"}
 
 ExpectC(k, d, o) ==
-    IF o \in {"open_creat", "open_follow_creat", "open_tmpfile", "open_excl", "open_follow_excl", "open_follow_creat_excl"} THEN "InvalidArgument"          \* creation flags (each of O_CREAT, O_EXCL, O_TMPFILE) refused up front
+    IF o \in {"open_creat", "open_follow_creat", "open_tmpfile", "open_excl", "open_follow_excl", "open_follow_creat_excl", "open_follow_tmpbit"}
+    THEN "InvalidArgument"          \* creation flags (each of O_CREAT, O_EXCL, O_TMPFILE) refused up front
+    ELSE IF d = "/./../.." THEN (IF k \in {"dir", "symdir"} THEN "ERR-or-inside" ELSE "ERR")
+         \* two levels up: still beneath the base only for deep link targets (thread-self -> PID/task/TID from the root);
+         \* what "inside" means is decided by openat2's RESOLVE_BENEATH, see the resolver-agreement rule of the check
     ELSE IF d = "/..NUL" THEN "ERR"          \* never a truncated path: an interior NUL is an error in both resolvers
     ELSE IF d = "/.." THEN (IF k \in {"dir", "symdir"} THEN "ERR-or-inside" ELSE "ERR")
          \* ".." never leaves procfs: the emulated resolver refuses it outright (EXDEV); openat2 with
